@@ -46,6 +46,54 @@ theorem dimensions_indices (env : Env α) (a0 : Arr α) (h0 : a0.dims = []) (ops
     dimensionIndices (run env a0 ops) = List.range' 1 (run env a0 ops).count :=
   dimensionIndices_gapfree (run_invariant env ops a0 (gapfree_init h0) (valid_init h0)).1
 
+/-- **createGroup_keeps_gapfree** — `createDimensionGroup(index)` with ANY index either refuses (index outside 1..count+1) or
+    leaves the names a permutation of 1..n': it appends name count+1, or replaces the group of an existing name -/
+theorem createGroup_keeps_gapfree (a a' : Arr α) (idx : Nat) (d : Desc α) (h : GapFreeSet a)
+    (hc : a.createGroup idx d = .ok a') : GapFreeSet a' ∧ (a'.count = a.count ∨ a'.count = a.count + 1) := by
+  unfold Arr.createGroup at hc
+  split at hc
+  · cases hc
+  · next hidx =>
+    simp only [Except.ok.injEq] at hc
+    subst hc
+    unfold GapFreeSet Arr.names Arr.count at *
+    simp only []
+    have hnames := names_createGroup a.dims idx d
+    have hnd : (a.dims.map (·.name)).Nodup := h.nodup_iff.2 List.nodup_range'
+    have hlenN := congrArg List.length hnames
+    simp only [List.length_map] at hlenN
+    by_cases hlast : idx = a.dims.length + 1
+    · have hnot : ∀ n ∈ a.dims.map (·.name), (n != idx) = true := by
+        intro n hn
+        have := (h.mem_iff).1 hn
+        rw [List.mem_range'_1] at this
+        simp; omega
+      have hf : (a.dims.map (·.name)).filter (fun n => n != idx) = a.dims.map (·.name) := List.filter_eq_self.2 hnot
+      rw [hf] at hnames hlenN
+      simp only [List.length_append, List.length_map, List.length_cons, List.length_nil] at hlenN
+      refine ⟨?_, Or.inr (by simpa using hlenN)⟩
+      rw [hnames]
+      have : (List.filter (fun g : Grp α => decide (g.name ≠ idx)) a.dims ++ [(⟨idx, d⟩ : Grp α)]).length = a.dims.length + 1 := by
+        simpa using hlenN
+      rw [this, List.range'_1_concat, hlast]
+      rw [Nat.add_comm 1 a.dims.length]
+      exact List.Perm.append_right _ h
+    · have hmem : idx ∈ a.dims.map (·.name) := by
+        rw [h.mem_iff, List.mem_range'_1]; omega
+      have he : (a.dims.map (·.name)).filter (fun n => n != idx) = (a.dims.map (·.name)).erase idx :=
+        (List.Nodup.erase_eq_filter hnd idx).symm
+      rw [he] at hnames hlenN
+      have hpos : 0 < a.dims.length := by
+        cases hd : a.dims with
+        | nil => simp [hd] at hmem
+        | cons _ _ => simp
+      simp only [List.length_append, List.length_erase_of_mem hmem, List.length_map, List.length_cons, List.length_nil] at hlenN
+      have hlen' : (List.filter (fun g : Grp α => decide (g.name ≠ idx)) a.dims ++ [(⟨idx, d⟩ : Grp α)]).length = a.dims.length := by
+        simp only [List.length_append, List.length_cons, List.length_nil] at hlenN ⊢; omega
+      refine ⟨?_, Or.inl hlen'⟩
+      rw [hnames, hlen']
+      exact (List.perm_append_comm.trans (List.perm_cons_erase hmem).symm).trans h
+
 theorem apply_append (env : Env α) (s : Shadow α) (op : Op α) (d : Desc α) (h : appendedDesc env op = some d) :
     (s.apply env op).dims = s.dims ++ [d] := by
   cases op <;> simp [appendedDesc] at h <;> simp [Shadow.apply, h]
@@ -232,6 +280,22 @@ theorem alias_preconditions (env : Env α) (a a' : Arr α) (n : Nat) (hs : step 
           · simp [h1, h2, h3, hu, h4, Except.map] at hs; split at hs <;> simp at hs; exact hs.2.symm
           · simp [h1, h2, h3, hu, h4, Except.map] at hs
   · simp [h1, h2, Except.map] at hs
+
+/-- **alias_only_first** — in every reachable state an alias descriptor, if there is one, has index 1 (it can only be created on an
+    array without descriptors, and no setter turns a descriptor into an alias) -/
+theorem alias_only_first (env : Env α) (a0 : Arr α) (h0 : a0.dims = []) (ops : List (Op α)) (i : Nat) (g : Grp α)
+    (hl : (run env a0 ops).lookup i = some g) (hb : g.d.body = .alias) : i = 1 := by
+  have hg := (run_invariant env ops a0 (gapfree_init h0) (valid_init h0)).1
+  have hP := run_shadow_invariant env AliasFirstS (fun s op h hl => aliasFirst_apply env s op h hl) ops a0 (gapfree_init h0)
+    (by intro k d hk; simp [toShadow, h0] at hk)
+  have hget := get_toShadow hg i
+  rw [hl] at hget
+  unfold Shadow.get at hget
+  by_cases hi : i = 0
+  · simp [hi] at hget
+  · simp only [hi, if_false, Option.map_some] at hget
+    have := hP (i - 1) g.d hget (by simp [isAlias, hb])
+    omega
 
 /-! ### delete -/
 
